@@ -168,6 +168,7 @@ def check(prop, tier, seed):
             stims.append({'class': 'tlc_script', 'lazy': r['lazy'], 'script': r['script'], 'calls': len(r['expect']) if r['connect'] == 'ok' and r['expect'] else 5, 'expect': r['expect'], 'expect_connect': r['connect'],
                           'connect_timeout': len(stims) % 3 == 1,       # a third of the channels also have Endpoint::connect_timeout set
                           'fail_kinds': [['refused'], ['timed_out', 'other'], ['not_found', 'denied', 'reset'], ['other']][len(stims) % 4],   # io::ErrorKind of failed attempts
+                          'zero_calls': [[], [], [1], [], [0, 2], [], [3]][len(stims) % 7],   # calls issued with an already expired deadline
                           'ep_opts': [[], ['concurrency_limit'], [], ['rate_limit'], [], ['user_agent', 'buffer_size'], ['concurrency_limit', 'rate_limit']][len(stims) % 7]})   # other Endpoint options (tower layers around the connection)
     if not stims:
         raise ToolError('no scripts exported')
@@ -184,7 +185,8 @@ def check(prop, tier, seed):
         st = run[0]['stim']
         if 'expect' not in st:
             continue
-        got = [('ok' if e['res'] == 'ok' else 'unavailable' if e.get('code') == 14 else 'other:%s' % e.get('code')) for e in run if e.get('e') == 'call']
+        # (a call with an expired deadline that was cut off with CANCELLED stands for the 'ok' the model predicts)
+        got = [('ok' if e['res'] == 'ok' or (e.get('zero') and e.get('code') == 1) else 'unavailable' if e.get('code') == 14 else 'other:%s' % e.get('code')) for e in run if e.get('e') == 'call']
         conn = [e['res'] for e in run if e.get('e') == 'connect']
         if conn and conn[0] != st['expect_connect'] or (conn and conn[0] == 'ok' and got != st['expect'][:len(got)]):
             nd += 1
